@@ -53,11 +53,17 @@ def w1(repo, res):
         own = {a.arg for a in fn.args.args + fn.args.kwonlyargs}
         for r in rets:
             c = ret_value(fn, r)
-            if not (isinstance(c, ast.Call) and isinstance(c.func, ast.Name) and c.func.id == "getBH_level2"):
+            # a method form may delegate to the top-level wrapper of the same letter (itself a W1 instance) instead of calling level 2 directly
+            deleg = None
+            if isinstance(c, ast.Call) and isinstance(c.func, ast.Name) and c.func.id != "getBH_level2" and cl is not None:
+                r_ = repo.resolve_name(m, c.func.id)
+                if r_ and r_[0] == "func" and re.fullmatch(r"get[BHJM]", r_[2].name) and r_[1].name.endswith("field_wrap_BH"):
+                    deleg = r_[2]
+            if not (isinstance(c, ast.Call) and isinstance(c.func, ast.Name) and (c.func.id == "getBH_level2" or deleg is not None)):
                 problems.append("does not return getBH_level2(...)")
                 continue
             kws = {k.arg: k.value for k in c.keywords if k.arg}
-            f = kws.get("field")
+            f = kws.get("field") if deleg is None else ast.Constant(value=deleg.name[-1])
             if not (isinstance(f, ast.Constant) and f.value == letter):
                 problems.append(f"field={ast.unparse(f) if f is not None else None} but the wrapper is {fn.name}")
             for p in FORWARD:
